@@ -232,6 +232,8 @@ class Program:
         self.instrs, self.seen, self.origin = [], set(), {}
         self.params = []
         self.fv = {}                  # IR var -> set of callable descriptors (function values)
+        self.list_vars = set()        # IR vars that can only hold fresh Python containers (list/tuple/dict/set objects):
+                                      # subscripting / iterating them yields an element, never a view of the container
         self.notes = []
         self.globals_read, self.globals_written, self.uses_rng = set(), set(), False
 
@@ -429,8 +431,10 @@ class Frame:
     def tmp(self, node, tag=""):
         return self.prog.var(("t", self.ctx, self.module.name, pos(node), tag))
 
-    def fresh(self, node, tag="", desc=None):
+    def fresh(self, node, tag="", desc=None, is_list=False):
         t = self.tmp(node, "new" + tag)
+        if is_list:
+            self.prog.list_vars.add(t)
         s = self.prog.site(("s", self.ctx, self.module.name, pos(node), tag),
                            "%s %s" % (desc or type(node).__name__, self.org(node)))
         self.emit(NEW, t, s, node)
@@ -450,7 +454,8 @@ class Frame:
 
     def item(self, node, x, tag=""):
         t = self.tmp(node, "item" + tag)
-        self.emit(COPY, t, x, node)
+        if x not in self.prog.list_vars:              # an ndarray row / slice is a view of the same buffer
+            self.emit(COPY, t, x, node)
         self.emit(ELEM, t, x, node)
         return t
 
@@ -529,6 +534,8 @@ class Frame:
             if len(vs) == 1:
                 return vs[0]
             t = self.prog.var(("rd", self.ctx, self.module.name, node.id, vs))
+            if all(v in self.prog.list_vars for v in vs):
+                self.prog.list_vars.add(t)
             for v in vs:
                 self.emit(COPY, t, v, node)
             return t
@@ -576,7 +583,7 @@ class Frame:
         return self.const()
 
     def container(self, e, elts, tag=""):
-        t = self.fresh(e, tag, "literal")
+        t = self.fresh(e, tag, "literal", is_list=True)
         for x in elts:
             if x is None:
                 continue
@@ -607,7 +614,7 @@ class Frame:
                 self.assign_target(g.target, self.item(g.iter, it, "it"), g.iter)
                 for c in g.ifs:
                     self.ev(c)
-            t = self.fresh(e, "", "comprehension")
+            t = self.fresh(e, "", "comprehension", is_list=True)
             for x in elts:
                 self.emit(STORE, t, self.ev(x), e)
         self.state = saved
@@ -994,7 +1001,7 @@ class Frame:
                     self.emit(COPY, t, v, node)
             return t
         if d in T.CONTAINER_OF_ITEMS:
-            t = self.fresh(node, "c", "result of %s" % d)
+            t = self.fresh(node, "c", "result of %s" % d, is_list=(d != "np.array"))
             its = []
             for v in argv if d != "sorted" else posv:
                 it = self.item(node, v, "ci%d" % v)
@@ -1005,14 +1012,14 @@ class Frame:
             self.inline_key_callbacks(node, kwargs, its)
             return t
         if d in T.CONTAINER_OF_TUPLES:
-            t = self.fresh(node, "c", "result of %s" % d)
-            tup = self.fresh(node, "tup", "tuples of %s" % d)
+            t = self.fresh(node, "c", "result of %s" % d, is_list=True)
+            tup = self.fresh(node, "tup", "tuples of %s" % d, is_list=True)
             for v in argv:
                 self.emit(STORE, tup, self.item(node, v, "ci%d" % v), node)
             self.emit(STORE, t, tup, node)
             return t
         if d in T.CONTAINER_FLATTEN:
-            t = self.fresh(node, "c", "result of %s" % d)
+            t = self.fresh(node, "c", "result of %s" % d, is_list=True)
             for v in argv:
                 self.emit(STORE, t, self.item(node, self.item(node, v, "ci%d" % v), "cii%d" % v), node)
             return t
@@ -1440,41 +1447,53 @@ def lean_chunks(ident, what, typ, items, per_line):
 
 # ------------------------------------------------------------------------------------------------ generation of Generated/ApiIR*.lean
 
-LIT_BITS = 16000                   # size of one hexadecimal literal (the elaborator is quadratic in the literal length)
-SHARDS = ["bottleneck", "gromov_hausdorff", "heat", "images", "images_kernels", "images_weights",
-          "landscapes.approximate", "landscapes.auxiliary", "landscapes.base", "landscapes.exact", "landscapes.tools",
-          "landscapes.transformer", "landscapes.visuals", "persistent_entropy", "sliced_wasserstein", "visuals", "wasserstein"]
+LIT_BITS = 32000                   # size of one hexadecimal literal (the elaborator is quadratic in the literal length)
+NBUCKETS = 4                       # entry points of one module / class are spread over this many generated files
 
 
-def shard_ident(mod):
-    return "".join(p.capitalize() for p in mod.replace(".", "_").split("_"))
+def shard_ident(mod, cls=None, bucket=0):
+    base = "".join(p.capitalize() for p in mod.replace(".", "_").split("_"))
+    return "%s%s_%d" % (base, cls or "", bucket)
 
 
-def shard_files():
-    return ["PersimVerif/Generated/ApiIR/%s.lean" % shard_ident(m) for m in SHARDS + ["extra"]]
+def assign_shards(eps):
+    """entry point -> shard identifier; depends only on the enumeration of entry points (names and order)"""
+    counts, out = {}, {}
+    for ep in eps:
+        key = (ep.module.name, ep.cls.name if ep.cls else None)
+        i = counts.get(key, 0)
+        counts[key] = i + 1
+        out[ep.name] = shard_ident(key[0], key[1], i % NBUCKETS)
+    return out
 
 
-def pack(masks, w):
-    P = 0
-    for i, m in enumerate(masks):
-        P |= m << (i * w)
-    return P
+def shard_files(root):
+    """the generated Lean files for the tree under `root` (parse only; no file is written)"""
+    import warnings
+    with warnings.catch_warnings():
+        warnings.simplefilter("ignore")
+        eps = Project(root).entry_points()
+    ids = sorted(set(assign_shards(eps).values()))
+    return ["PersimVerif/Generated/ApiIR.lean"] + ["PersimVerif/Generated/ApiIR/%s.lean" % i for i in ids]
 
 
-def lean_bignat(name, value):
-    defs, parts, k = [], [], 0
-    while value or not parts:
-        defs.append("def %s_%d : Nat := 0x%x" % (name, k, value & ((1 << LIT_BITS) - 1)))
-        parts.append("%s_%d" % (name, k) if k == 0 else "(%s_%d <<< %d)" % (name, k, k * LIT_BITS))
-        value >>= LIT_BITS
-        k += 1
-    defs.append("def %s : Nat := %s" % (name, " ||| ".join(parts)))
-    return defs
+def pieces(masks, w, k):
+    out = []
+    for i in range(0, len(masks), k):
+        P = 0
+        for j, m in enumerate(masks[i:i + k]):
+            P |= m << (j * w)
+        out.append(P)
+    return out
+
+
+def piece_size(w):
+    return max(1, LIT_BITS // max(w, 1))
 
 
 def sol_protocol(sol):
-    w = sol["nObj"]
-    return "[%d,%d,%d]" % (w, pack(sol["pts"], w), pack(sol["cont"], w))
+    w = sol["nObj"]; k = piece_size(w)
+    return "[%d,%d,[%s],[%s]]" % (w, k, ",".join(map(str, pieces(sol["pts"], w, k))), ",".join(map(str, pieces(sol["cont"], w, k))))
 
 
 def load_policy():
@@ -1520,9 +1539,9 @@ class Result:
         chunk_names = ["irI_%s_%d" % (i, k) for k in range(nchunks)]
         out.append("def ir_%s : Prog := ⟨[%s], List.flatten [%s]⟩" % (i, ", ".join(map(str, prog.params)), ", ".join(chunk_names)))
         w = sol["nObj"]
-        out += lean_bignat("solP_%s" % i, pack(sol["pts"], w))
-        out += lean_bignat("solC_%s" % i, pack(sol["cont"], w))
-        out.append("def sol_%s : SolB := ⟨%d, solP_%s, solC_%s⟩" % (i, w, i, i))
+        k = piece_size(w)
+        out.append("def sol_%s : SolB := ⟨%d, %d,\n  %s,\n  %s⟩" % (i, w, k, lean_list(["0x%x" % m for m in pieces(sol["pts"], w, k)], 1),
+                                                                   lean_list(["0x%x" % m for m in pieces(sol["cont"], w, k)], 1)))
         if self.kind == "obligation":
             for k in range(nchunks):
                 out.append("private theorem chunk_%s_%d : chunkOk sol_%s irI_%s_%d = true := by decide +kernel" % (i, k, i, i, k))
@@ -1565,19 +1584,21 @@ def generate(root, lean_dir, policy=None):
     project, tr, results = translate_all(root, policy)
     gdir = os.path.join(lean_dir, "PersimVerif", "Generated")
     os.makedirs(os.path.join(gdir, "ApiIR"), exist_ok=True)
-    by_shard = {m: [] for m in SHARDS + ["extra"]}
+    shard_of = assign_shards([r.ep for r in results])
+    by_shard = {}
     for r in results:
-        by_shard[r.ep.module.name if r.ep.module.name in by_shard else "extra"].append(r)
-    for m, rs in by_shard.items():
-        sid = shard_ident(m)
+        by_shard.setdefault(shard_of[r.name], []).append(r)
+    for sid in sorted(by_shard):
         body = [HEADER, "namespace PersimVerif.Generated.%s" % sid, "open PersimVerif.IR PersimVerif.C19", ""]
-        for r in rs:
+        for r in by_shard[sid]:
             body.append(r.lean())
             body.append("")
         body.append("end PersimVerif.Generated.%s" % sid)
         write_if_changed(os.path.join(gdir, "ApiIR", sid + ".lean"), "\n".join(body) + "\n")
-    top = [HEADER.replace("import PersimVerif.Props.C19\n", "".join("import PersimVerif.Generated.ApiIR.%s\n" % shard_ident(m)
-                                                                      for m in SHARDS + ["extra"]))]
+    for f in sorted(os.listdir(os.path.join(gdir, "ApiIR"))):        # shards of entry points that no longer exist
+        if f.endswith(".lean") and f[:-5] not in by_shard:
+            os.remove(os.path.join(gdir, "ApiIR", f))
+    top = [HEADER.replace("import PersimVerif.Props.C19\n", "".join("import PersimVerif.Generated.ApiIR.%s\n" % sid for sid in sorted(by_shard)))]
     top.append("namespace PersimVerif.Generated\n")
     top.append("/-- entry points with a generated obligation (%d), in place by contract (%d), dynamic only (%d) -/"
                % (sum(r.kind == "obligation" for r in results), sum(r.kind == "inplace_by_contract" for r in results),
